@@ -11,7 +11,6 @@ import (
 	"strings"
 	"sync"
 	"time"
-	"unicode/utf8"
 
 	. "verifharness/hlib"
 
@@ -206,47 +205,32 @@ func httpTarget(name string) (path string, ok bool) {
 	return u.Path, true
 }
 
-// targetHazard: the path holds a byte that has to be escaped in a request line (or reads as
-// a scheme / an authority when parsed again).  httproto writes the UNESCAPED path into the
-// request line; known finding http-target-not-escaped.
-func targetHazard(p string) bool {
-	if strings.ContainsAny(p, " ?#%") {
-		return true
-	}
-	for i := 0; i < len(p); i++ {
-		if p[i] < 0x20 || p[i] == 0x7f {
-			return true
-		}
-	}
-	if strings.HasPrefix(p, "//") && !strings.HasPrefix(p, "///") {
-		return true
-	}
-	if !strings.HasPrefix(p, "/") {
-		seg := p
-		if i := strings.IndexByte(p, '/'); i >= 0 {
-			seg = p[:i]
-		}
-		if strings.Contains(seg, ":") {
-			return true
-		}
-	}
-	return false
-}
-
-// jsonCut: asked is cut at got, and the first byte that is missing is one strconv.Quote
-// writes as \a, \v, \xNN or \UNNNNNNNN - escapes gjson does not read (it ends the string
-// there).  Known finding json-name-truncated.
-func jsonCut(asked, got string) bool {
-	if len(got) >= len(asked) || !strings.HasPrefix(asked, got) {
+// targetResidue: since the repair 7ef806c packRequest writes u.EscapedPath().  That is the
+// caller's own raw path when it is a valid encoding, else escape(u.Path) - which leaves a
+// leading "//" and a ':' in a rootless first segment raw, so the receiver reads an authority
+// or a scheme.  Only a caller's string that needs BOTH (an escaped '/' or ':' in front AND a
+// byte that makes its raw form invalid: blank, '{', '"', non-ASCII ...) gets there; known
+// finding http-target-not-escaped, narrowed to exactly this.
+func targetResidue(name string) bool {
+	u, err := url.Parse(name)
+	if err != nil {
 		return false
 	}
-	rest := asked[len(got):]
-	c := rest[0]
-	if c < 0x80 {
-		return (c < 0x20 && c != 8 && c != 9 && c != 10 && c != 12 && c != 13) || c == 0x7f
+	e := u.EscapedPath()
+	if e == u.RawPath {
+		return false
 	}
-	r, w := utf8.DecodeRuneInString(rest)
-	return (r == utf8.RuneError && w == 1) || r > 0xffff
+	if strings.HasPrefix(e, "//") && !strings.HasPrefix(e, "///") {
+		return true
+	}
+	if !strings.HasPrefix(e, "/") {
+		seg := e
+		if i := strings.IndexByte(e, '/'); i >= 0 {
+			seg = e[:i]
+		}
+		return strings.Contains(seg, ":")
+	}
+	return false
 }
 
 // ---------------------------------------------------------------- the model's domain (Model/RouteWire.v)
@@ -307,9 +291,9 @@ loop:
 // inModelDomain: the names for which Model/RouteWire.v says what arrives.
 func inModelDomain(proto, ns, name string) bool {
 	switch proto {
-	case "raw", "thrift", "wspb":
+	case "raw", "thrift", "wspb", "json", "wsjson":
 		return true
-	case "json", "wsjson", "pb":
+	case "pb":
 		return isASCII(name)
 	}
 	// http
@@ -323,7 +307,7 @@ func inModelDomain(proto, ns, name string) bool {
 	if err != nil {
 		return true
 	}
-	target := u.Path
+	target := u.EscapedPath()
 	if u.RawQuery != "" {
 		target += "?" + u.RawQuery
 	}
@@ -375,5 +359,25 @@ func pathFold(cfg *RunCfg, n string) (string, string) {
 		return n[:i] + c + "x" + c + ".." + c + n[i+1:], "fold-dotdot-segment"
 	default:
 		return n[:i] + c + c + c + n[i+1:], "fold-triple-sep"
+	}
+}
+
+// twoHazards builds a URI-like string around the registered name n that needs an escaped
+// delimiter in front AND holds a byte that makes its raw form an invalid encoding.
+func twoHazards(cfg *RunCfg, n string) (string, string) {
+	r := cfg.Rng
+	bad := []string{" x", "{", "\"", "\u00e9", "^", "|"}[r.Intn(6)]
+	body := strings.TrimPrefix(n, "/")
+	switch r.Intn(5) {
+	case 0:
+		return "%2f" + n + bad, "uri2-slash-front"
+	case 1:
+		return "a%3a" + body + bad, "uri2-colon-front"
+	case 2:
+		return "%2f/h\u00e9" + n, "uri2-authority"
+	case 3:
+		return "%2F/h" + bad + n, "uri2-authority-bad"
+	default:
+		return "a%3A//h" + n + bad, "uri2-scheme-authority"
 	}
 }
